@@ -12,6 +12,7 @@ Rewrites (one site at a time, applied to the source text):
   AUGEXP   `x += e` -> `x = x + e` for plain names
   PARENS   the test of an `if` / `while` wrapped in redundant parentheses
   ELSEIFY  `if c: ...; return` + REST -> `if c: ...; return else: REST`;  NESTIF `if a and b: X` -> nested ifs;  TEMP `return e` -> `result_ = e; return result_`
+  MERGEIF  nested ifs without else merged with `and`;  SWAPINDEP adjacent constant stores to different fields of self exchanged
   FSTR     'a{}b'.format(x) -> f'a{x}b'
   GUARD    `if c: BODY` as last statement of a loop body / function -> `if not c: continue / return` followed by BODY
   ALIAS    an attribute path used at least twice (`self.machine.events`) bound to a new local at the top of the function
@@ -145,6 +146,30 @@ def twins_in(func_node, btext, offs):
                     r = ast.Return(value=ast.Name(id="result_", ctx=ast.Load()))
                     ns, ne = _rng(st, offs)
                     out.append(("TEMP", ns, ne, _indent(_u(ast.fix_missing_locations(a)) + "\n" + _u(r), st.col_offset), st.lineno, "temporary for `%s`" % _u(st.value)[:40]))
+    # MERGEIF: `if a:` whose whole body is `if b: X` (no else on either) -> `if a and b: X`
+    # SWAPINDEP: two adjacent `self.<f> = <constant / empty container>` stores of different fields exchanged
+    def _simple_const(e):
+        return isinstance(e, ast.Constant) or (isinstance(e, (ast.List, ast.Dict, ast.Tuple, ast.Set)) and not ast.dump(e).count("Name(")) or \
+            (isinstance(e, ast.Call) and isinstance(e.func, ast.Name) and e.func.id in ("list", "dict", "set", "tuple") and not e.args and not e.keywords)
+    for n in ast.walk(func_node):
+        if isinstance(n, ast.If) and not n.orelse and len(n.body) == 1 and isinstance(n.body[0], ast.If) and not n.body[0].orelse:
+            inner = n.body[0]
+            m = ast.If(test=ast.BoolOp(op=ast.And(), values=[n.test, inner.test]), body=inner.body, orelse=[])
+            ns, ne = _rng(n, offs)
+            if btext[ns:ns + 4] != b"elif":
+                out.append(("MERGEIF", ns, ne, _indent(_u(ast.fix_missing_locations(m)), n.col_offset), n.lineno, "merge nested `%s`" % _u(n.test)[:40]))
+        for fld in ("body", "orelse", "finalbody"):
+            lst = getattr(n, fld, None)
+            if not isinstance(lst, list):
+                continue
+            for a, b in zip(lst, lst[1:]):
+                if isinstance(a, ast.Assign) and isinstance(b, ast.Assign) and len(a.targets) == 1 and len(b.targets) == 1 and \
+                        isinstance(a.targets[0], ast.Attribute) and isinstance(b.targets[0], ast.Attribute) and _u(a.targets[0]) != _u(b.targets[0]) and \
+                        _u(a.targets[0]).startswith("self.") and _u(b.targets[0]).startswith("self.") and _simple_const(a.value) and _simple_const(b.value) \
+                        and a.col_offset == b.col_offset:
+                    s0, _e0 = _rng(a, offs)
+                    _s1, e1 = _rng(b, offs)
+                    out.append(("SWAPINDEP", s0, e1, _u(b) + "\n" + " " * a.col_offset + _u(a), a.lineno, "swap `%s` <-> `%s`" % (_u(a)[:30], _u(b)[:30])))
     # FSTR: 'a{}b{}'.format(x, y) -> f'a{x}b{y}'  (positional, plain `{}` fields only)
     for n in ast.walk(func_node):
         if isinstance(n, ast.Call) and isinstance(n.func, ast.Attribute) and n.func.attr == "format" and isinstance(n.func.value, ast.Constant) and \
